@@ -26,6 +26,8 @@ RULE = ("tables: corpus (uniform / shorter last / LONGER last / one-bin / variab
         "record at -1 / L / L+1 (after the one-based shift) or on an unknown chromosome (malformed stream), each run x {zero,one}-based x "
         "{reflect,drop,None,raise} x {pairs,bg2 schema, sided payload} x {chromosome columns as strings / integer ids / pandas Categorical with "
         "categories in bin order, alphabetical, reversed, with unused extras, subset} x {positions int64,int32,uint32} x {given,reversed,shuffled order} x {1 chunk, 2 chunks, singletons}; "
+        "every loader (sanitize_records, cload pairs, cload tabix incl. nproc 2 / max-split, load bg2) on inputs with runs of 1-3 consecutive records "
+        "whose chrom1 and/or chrom2 is unlisted (same or different unlisted names) at the start / middle / end, interleaved with listed ones; "
         "sanitize_pixels on random bin-id records; aggregate_records on every accepted output; CLI: cload pairs / load bg2 / load coo on "
         "small files with several chunks. One evaluation = one API call or CLI run compared with the model and the oracle. "
         "non-trivial = at least one retained record on a table with >=2 bins; distinct by full input")
